@@ -6,6 +6,7 @@ CONSTANTS
   DurModes = {"trex"}
   CtsModes = {"none"}
   TfdtVs = {0, 1}
+  Orders = {"asc"}
   TrexPerTrack = TRUE
   MdatFirsts = {FALSE}
   Deliveries = {"one", "split"}
